@@ -7,6 +7,12 @@ BASE_OFF = ("cd /repo && env -u GIN_CONFIG_VERIF /venv/bin/python -m pytest -ra 
 
 CHECKS = {
 
+  'C18': ('model_checking',
+          'TLA+ spec GinThreads.tla (wrapper / reader / singleton split at their shared accesses, two lock switches) model-checked with TLC over all interleavings incl. two expected-violation controls; real threads run under a deterministic line-granularity scheduler and their recorded access events are validated by TLC against the spec',
+          'TLC explores every interleaving of 2-3 threads (calls in shared / distinct scopes, operative reads, first use of the same / different singletons) and shows that without either lock the properties fail; the same programs (and a 4-thread one) run as real threads under a seeded scheduler preempting at every line of gin/config.py and every lock / shared-dict operation; direct oracles judge each execution and TLC validates every recorded event sequence as a behaviour of the spec with all invariants evaluated on the states the real threads went through.',
+          'Line-granularity schedules are sampled, not enumerated. The harness replaces gin\'s module-level locks and shared dicts by cooperative / recording ones for the duration of a run (no source hooks).',
+          'DESIGN.md section 6 C18'),
+
   'C17': ('model_checking',
           'TLA+ spec GinExc.tla (propagation and message composition through nested wrapper frames, class descriptors, named deviations) model-checked with TLC incl. an expected-violation control; the predicate is observed on every builtin exception class and six user classes raised through real configurables',
           'TLC checks the intended design (same class, all attributes, traceback, one suffix per frame innermost first, pass-through of non-Exceptions) over nesting depth <= 3, six class descriptors and both raise sites, and shows that the recorded deviations violate C17_Attrs; the harness raises every builtin exception class constructible here plus user classes (required __init__ / __new__ arguments, __slots__, custom __str__, same-named reloaded classes) at depth 1-3 and observes class, MRO, every public attribute, traceback and message.',
@@ -81,7 +87,7 @@ CHECKS = {
   'C09': ('model_checking',
           'TLA+ spec GinCore.tla scope stack (action properties C09_Compose / C09_Restore) model-checked with TLC; TLC behaviours replayed into gin',
           'TLC enumerates all sequences of scope entries (name, a/b, list, None, invalid) and exits (normal, exception) within the stack bound; behaviours mixing scopes, bindings and calls are replayed into gin comparing the whole stack after every step.',
-          'Sequential half; the thread half is added by GinThreads when built. Trusted: TLC, adapter.',
+          'Sequential half on GinCore; thread half on GinThreads with the deterministic scheduler (scopes and scope strings observed per thread after every step).',
           'DESIGN.md section 6 C09'),
   'C10': ('model_checking',
           'TLA+ spec GinCore.tla (C10_Required) model-checked with TLC; TLC behaviours replayed into gin',
